@@ -11,6 +11,9 @@ for sid in ids:
     if not os.path.exists(mp):
         continue
     meta = json.load(open(mp))
+    if meta.get("obsolete"):
+        print(sid, meta["property"], "obsolete:", meta["obsolete"][:80], flush=True)
+        continue
     p = subprocess.run([os.path.join(ROOT, "tools", "tryseed.sh"), meta["property"], os.path.join(d, "patch.diff")],
                        capture_output=True, text=True)
     out = p.stdout + p.stderr
